@@ -690,8 +690,11 @@ class Messenger(Connection):
             # Both sides immediately try TLS, Client initiates handshake
             if self._tls_attempt:
                 # flush the buffers ahead of TLS
-                while self.__tx_buf:
+                while self.__tx_buf and self.get_app_socket() is not None:
                     self._avail_tx_notls()
+                if self.get_app_socket() is None:
+                    # connection was lost while flushing
+                    return
 
                 # Either case, TLS handshake begins
                 try:
